@@ -132,7 +132,9 @@ def lexeme_classes():
                                      (5, rx.seq(DIG, rx.ch("."), DIG, rx.anyof("eE"), DIG)), (4, rx.seq(rx.ch("."), DIG, rx.anyof("eE"), DIG))])
     for u in UNITS:
         C[f"int_{u}"] = (["INT_NUMBER", "IDENT"], [(1 + len(u), rx.seq(DIG, rx.lit(u)))])
-        C[f"float_{u}"] = (["FLOAT_NUMBER", "IDENT"], [(3 + len(u), rx.seq(DIG, rx.ch("."), DIG, rx.lit(u)))])
+        C[f"float_{u}"] = (["FLOAT_NUMBER", "IDENT"], [(3 + len(u), rx.seq(DIG, rx.ch("."), DIG, rx.lit(u))), (2 + len(u), rx.seq(rx.ch("."), DIG, rx.lit(u))),
+                                                        (2 + len(u), rx.seq(DIG, rx.ch("."), rx.lit(u))), (4 + len(u), rx.seq(rx.ch("."), DIG, rx.anyof("eE"), DIG, rx.lit(u))),
+                                                        (3 + len(u), rx.seq(DIG, rx.anyof("eE"), DIG, rx.lit(u)))])
     C["bit_string"] = (["BIT_STRING"], [(3, rx.seq(rx.ch('"'), BIN, rx.ch('"'))), (5, rx.seq(rx.ch('"'), BIN, rx.ch("_"), BIN, rx.ch('"'))),
                                         (4, rx.seq(rx.ch("'"), BIN, BIN, rx.ch("'")))])
     C["string"] = (["STRING"], [(3, rx.seq(rx.ch('"'), NOT01_, rx.ch('"'))), (4, rx.seq(rx.ch('"'), STRCHAR, NOT01_, rx.ch('"'))), (3, rx.seq(rx.ch("'"), NOT01_, rx.ch("'")))])
